@@ -111,6 +111,8 @@ def next_section(name="", report=MAIN_REPORT):
         report[TOOL_NAME]['success'] = None
         report.start_group(report[TOOL_NAME]['section_group'])
     else:
+        # The whole file is the main code again: no section offset applies
+        report.submission.clear_line_offsets()
         not_enough_sections(section_number, found)
     report.execute_hooks(TOOL_NAME, 'next_section.after')
 
